@@ -75,9 +75,19 @@ def _gen(rnd):
                     else:
                         cds, frames = keep
                     pid = "prot_%d_%d" % (gi, ti)
+                # free-form qualifiers, as a model read from a file carries them: a note, and (a gene that was renamed or
+                # re-tagged after reading) the /gene and /locus_tag the records had in the file they came from
+                quals = {}
+                if rnd.random() < 0.5:
+                    quals["note"] = ["note %d" % gi]
+                if rnd.random() < 0.3:
+                    quals[rnd.choice(["locus_tag", "gene"])] = ["OLD_%d" % gi]
+                    if rnd.random() < 0.4:
+                        quals.update(locus_tag=["OLD_%d" % gi], gene=["oldsym%d" % gi])
                 txs.append(mk_tx(tb, st, cds, None, frames=frames, parent=par, transcript_id="tx_%d_%d" % (gi, ti),
                                  transcript_type=Biotype[btype], protein_id=pid or None,
-                                 product="product %d" % gi if cds else None, sequence_name="chrG"))
+                                 product="product %d" % gi if cds else None, sequence_name="chrG",
+                                 qualifiers=quals or None))
                 tm.append([tb, cds or [], KINDS[btype], pid])
             genes.append(GeneInterval(txs, gene_id="gid%d" % gi, gene_symbol="sym%d" % gi, gene_type=Biotype[btype],
                                       locus_tag=tag, sequence_name="chrG", parent_or_seq_chunk_parent=par))
